@@ -12,6 +12,7 @@ for mf in sorted(glob.glob(os.path.join(V, "seeded", "*", "meta.json"))):
     tmp = "/var/tmp/rerun-seed-%s" % sid; os.makedirs(tmp, exist_ok=True)
     subprocess.run(["cp", os.path.join(d, "patch.diff"), os.path.join(d, demo)] + [os.path.join(d, h) for h in os.listdir(d) if h.endswith(".h")] + [tmp])
     cmd = [sys.executable, os.path.join(V, "tools/process_seed.py"), sid, ",".join(m["breaks"]), tmp + "/patch.diff", tmp + "/" + demo, m["needs_to_manifest"]]
+    if m.get("extra_demo_flags"): cmd += ["--extra-demo-flags", m["extra_demo_flags"]]
     if "--thorough" in sys.argv: cmd += ["--tier", "thorough"]
     r = subprocess.run(cmd, stdout=subprocess.PIPE, stderr=subprocess.STDOUT, text=True)
     m2 = json.load(open(mf))
